@@ -50,8 +50,8 @@ theorem afterPassConstraints_ok (req : Nat) (u h : Bool) (hh : h = true) :
 
 theorem afterPassConstraints_ge (req : Nat) (u h : Bool) : req ≤ afterPassConstraints req u h := by
   unfold afterPassConstraints
-  simp only [passConstraintRequestLimit, passConstraintVersion]
-  by_cases hc : h = true ∧ req ≤ 196608 ∧ ¬u = true
+  have hlim : passConstraintRequestLimit < passConstraintVersion := by decide
+  by_cases hc : h = true ∧ req ≤ passConstraintRequestLimit ∧ ¬u = true
   · rw [if_pos hc]; omega
   · rw [if_neg hc]; omega
 
